@@ -271,8 +271,11 @@ def chk_hex(case, acc, seed):
         acc.violation(f'hex:raises:{type(e).__name__}', case, repr(e))
         return
     ndrop = len(set(d for d in drop if 0 <= d < nseg))
-    if m.shape[0] != nseg - ndrop:
-        acc.violation('hex:count', case, f'{m.shape[0]} segments, expected {nseg} - {ndrop}')
+    if m.shape[0] != nseg - ndrop or np.asarray(ma).shape != m.shape:
+        acc.violation('hex:count', case, f'{m.shape[0]} segments (antialiased call: {np.asarray(ma).shape[0] if np.ndim(ma) == 3 else np.shape(ma)}), expected {nseg} - {ndrop}')
+        return
+    if np.asarray(flat).shape != m.shape[1:]:
+        acc.violation('hex:flatten', case, f'flatten=True gives shape {np.asarray(flat).shape}, the segment masks have {m.shape[1:]}')
         return
     if m.shape[0] == 0:
         acc.case(case, outcome='hex-empty')
